@@ -13,6 +13,7 @@ that whenever the reference yields a value the compiled program yields the ident
 import hashlib
 import json
 import os
+import re
 import time
 import z3
 from mirsym.driver import Harness, ev, slice_of, conc_bytes, sym_bytes
@@ -701,7 +702,7 @@ TEMPLATES += [
 ]
 
 CL22_INLINE = ('inline_uses_defun',)     # cl22 emits the inline's parameter *name* when it is passed on to a function (known finding)
-DIVERGING_23 = ('const_call_in_helper',)     # cl23+ compilation of these does not terminate (known finding)
+DIVERGING_23 = ()     # templates whose cl23+ compilation does not terminate (none on the current tree; F17 was one until it was fixed)
 
 # shapes reported by the independent sub-agents as suspicious on the unmodified tree (see DESIGN.md §6/§7)
 TEMPLATES += [
@@ -762,7 +763,7 @@ class CompileRun(Harness):
     OPTIONS = {'quick': [('cl21', False), ('cl23', False)], 'thorough': [('cl21', False), ('cl21', True), ('cl22', False), ('cl23', False), ('cl24', False)]}
     classes = {'cl22_inline_passes_parameter_to_function': lambda case, inp: z3.BoolVal(case['t'] in CL22_INLINE and case.get('sigil') == 'cl22')}
 
-    QUICK_23 = ('defun_if', 'inline_let', 'rest_tail_let', 'let_shadow', 'lambda_map', 'assign_shadow', 'rest_const_args')
+    QUICK_23 = ('defun_if', 'inline_let', 'rest_tail_let', 'let_shadow', 'lambda_map', 'assign_shadow', 'rest_const_args', 'const_call_in_helper')
 
     def templates(self, tier):
         for name, src, specs in TEMPLATES:
@@ -994,8 +995,7 @@ class BuildsAgree(CompileRun):
         got = [native.get('result', {}).get('ok'), native.get('result_b', {}).get('ok')]
         return got == predicted['res']
 
-    classes = {'cl23_constant_call_inside_a_helper': lambda case, inp: z3.BoolVal(case['t'] == 'const_call_in_helper'),
-               'cl22_inline_passes_parameter_to_function': lambda case, inp: z3.BoolVal(case['t'] in CL22_INLINE and 'cl22' in (case['a'][0], case['b'][0]))}
+    classes = {'cl22_inline_passes_parameter_to_function': lambda case, inp: z3.BoolVal(case['t'] in CL22_INLINE and 'cl22' in (case['a'][0], case['b'][0]))}
 
     def run_native(self, items):
         return [native_compile_text(it['inputs']) for it in items]
@@ -1203,7 +1203,10 @@ class SymbolsDescribe(CompileRun):
         obs = []
         names = set(n for n, _, _, _ in self.functions_of(self.fn_info(case)[0])[1])
         for k, v in out['entries']:
-            obs.append(('entry_names_a_function_of_the_source', z3.BoolVal(v in names)))
+            # functions the compiler itself introduces (desugared let / assign bodies, lambdas) carry generated names of
+            # the form <stem>_$_<n>: such an entry names that generated function, which is what the code implements
+            synthetic = re.search(r'_\$_\d+$', v) is not None
+            obs.append(('entry_names_a_function_of_the_source', z3.BoolVal(v in names or synthetic)))
         if not out['mine']:
             if not out['optimised']:
                 obs.append(('unoptimised_build_has_an_entry_for_every_function', z3.BoolVal(False)))
